@@ -101,7 +101,14 @@ func gen(t *rapid.T) *Case {
 		// a request that omits the key of an outer list, with stored siblings whose key value or name
 		// textually extends the requested one below that list
 		k := rapid.IntRange(0, 2).Draw(t, "ws-key")
-		if rapid.Bool().Draw(t, "ws-shape") {
+		if shape := rapid.IntRange(0, 2).Draw(t, "ws-shape3"); shape == 2 {
+			// a two-key list addressed by its alphabetically second key only: /plain/l2a[b=B] with entries that differ in b
+			// (template 15 = plain/l2a/v, keys a, b)
+			k2 := rapid.IntRange(0, 2).Draw(t, "ws-key2")
+			c.Running = append(c.Running, vlib.LeafSel{T: 15, K: []int{k, k2}, V: 0}, vlib.LeafSel{T: 15, K: []int{k, (k2 + 1) % 3}, V: 1},
+				vlib.LeafSel{T: 15, K: []int{(k + 1) % 3, k2}, V: 2})
+			c.Paths = append(c.Paths, PathSel{Leaf: vlib.LeafSel{T: 15, K: []int{k, k2}}, Up: rapid.IntRange(0, 1).Draw(t, "ws-up"), DropKeys: 1})
+		} else if shape == 1 {
 			// /plain/l1/sub[id=1](/v) with sub[id=10] stored next to it (template 13 = plain/l1/sub/v; ids 1, 2, 10)
 			c.Running = append(c.Running, vlib.LeafSel{T: 13, K: []int{k, 0}, V: 0}, vlib.LeafSel{T: 13, K: []int{k, 2}, V: 1})
 			c.Paths = append(c.Paths, PathSel{Leaf: vlib.LeafSel{T: 13, K: []int{k, 0}}, Up: rapid.IntRange(0, 1).Draw(t, "ws-up"), Masks: []int{1}})
@@ -343,10 +350,14 @@ func Exec(c *Case) (nontrivial bool, labels []string, fail *vlib.Failure) {
 		if ps.Unknown {
 			unknown = true
 		}
-		if ps.DropOuter || len(ps.Masks) > 0 {
+		anyMask := false
+		for _, m := range ps.Masks {
+			anyMask = anyMask || m != 0
+		}
+		if ps.DropOuter || anyMask {
 			lab["keys-omitted-above-the-last-element"] = true
 		}
-		if ps.DropKeys != 0 {
+		if ps.DropKeys != 0 || ps.DropOuter || anyMask {
 			lab["partial-keys"] = true
 		}
 	}
